@@ -62,7 +62,7 @@ def run(chk):
     ok, det = lib.prove(chk, MODULES, min_examples=1)
     harness = lib.build_harness()
     quick = chk.tier == "quick"
-    count, maxlen = (60, 8) if quick else (1500, 20)
+    count, maxlen = (60, 8) if quick else (400, 12)
     sizes = [4, 8, 16] if quick else [4, 8, 16, 32]
     recs, optexts, mism, drift, san, fails = explore(chk, harness, count, sizes, maxlen, "main")
     chk.cov["evaluations"] = 2 * len(optexts)
